@@ -198,6 +198,77 @@ Qed.
 Lemma Inv2_mvs g w s s' : gwf g -> Inv2 g s -> mvs g w s s' -> Inv2 g s'.
 Proof. intros Hg HI H. induction H; [exact HI|]. apply IHmvs. eapply Inv2_mv1; eauto. Qed.
 
+(* ---- the same for classes whose reuse scope is one swarm: holders are counted per swarm ---- *)
+Definition in_swarm (g : graph) (sw : nat) (v : nat) : bool := Nat.eqb (w_swarm (wk g v)) sw.
+Definition cnts (g : graph) (sw : nat) (l : list nat) : nat := length (filter (in_swarm g sw) (dedup l)).
+
+Lemma cnts_incl g sw l l' : (forall x, In x l' -> in_swarm g sw x = true -> In x l) -> cnts g sw l' <= cnts g sw l.
+Proof.
+  intros H. unfold cnts. apply NoDup_incl_length; [apply NoDup_filter, dedup_NoDup|].
+  intros x Hx. apply filter_In in Hx. destruct Hx as [Hx Hs]. apply filter_In. split; [|exact Hs].
+  apply dedup_In. apply H; [now apply dedup_In | exact Hs].
+Qed.
+Lemma cnts_incl_cons g sw l l' w : (forall x, In x l' -> In x l \/ x = w) -> cnts g sw l' <= S (cnts g sw l).
+Proof.
+  intros H. unfold cnts. change (S (length (filter (in_swarm g sw) (dedup l)))) with (length (w :: filter (in_swarm g sw) (dedup l))).
+  apply NoDup_incl_length; [apply NoDup_filter, dedup_NoDup|].
+  intros x Hx. apply filter_In in Hx. destruct Hx as [Hx Hs]. rewrite dedup_In in Hx.
+  destruct (H x Hx) as [Hl | ->]; [right; apply filter_In; split; [now apply dedup_In | exact Hs] | now left].
+Qed.
+
+Definition Inv3 (g : graph) (s : state) : Prop :=
+  forall i sw, n_flat (nd g i) = false -> n_scope (nd g i) = PerSwarm ->
+               cnts g sw (hold s (class_of g i)) <= tmax g s (class_of g i).
+
+Lemma cnts_class_eq g sw s i n : gwf g -> In n (class_of g i) -> cnts g sw (hold s (class_of g n)) = cnts g sw (hold s (class_of g i)).
+Proof.
+  intros Hg Hn. apply Nat.le_antisymm; apply cnts_incl; intros x Hx _; apply hold_In in Hx; destruct Hx as [j [Hj E]];
+    apply hold_In; exists j; (split; [|exact E]); now apply (gw_class g Hg i n Hn).
+Qed.
+
+Lemma is_occupied_swarm g s n w :
+  n_flat (nd g n) = false -> n_scope (nd g n) = PerSwarm -> is_occupied g s n w = false ->
+  cnts g (w_swarm (wk g w)) (hold s (class_of g n)) < thr g s n.
+Proof.
+  intros Hf Hs H. unfold is_occupied, is_started, scoped_count in H. rewrite Hf, Hs in H.
+  apply Nat.leb_gt in H. exact H.
+Qed.
+
+Lemma Inv3_mv1 g w s s' : gwf g -> MctInv g s -> Inv3 g s -> mv1 g w s s' -> Inv3 g s'.
+Proof.
+  intros Hg HM HI Hm i sw Hf Hs. specialize (HI i sw Hf Hs).
+  destruct Hm as [Hsv Hthr _ | n Ht Hocc Hsv Hthr _ | n Ht Hsv Hthr _ | Hsv Hthr _].
+  - rewrite (hold_same s s' _ Hsv), (tmax_same g s s' _ Hthr). exact HI.
+  - rewrite (tmax_same g s s' _ Hthr).
+    destruct (in_dec Nat.eq_dec n (class_of g i)) as [Hin|Hnin].
+    + assert (Hfn : n_flat (nd g n) = false) by (rewrite (gw_flat g Hg i n Hin); exact Hf).
+      assert (Hsn : n_scope (nd g n) = PerSwarm) by (rewrite (gw_scope g Hg i n Hin); exact Hs).
+      pose proof (is_occupied_swarm g s n w Hfn Hsn Hocc) as Hroom.
+      rewrite (cnts_class_eq g _ s i n Hg Hin) in Hroom.
+      assert (Hall : forall x, In x (hold s' (class_of g i)) -> In x (hold s (class_of g i)) \/ x = w).
+      { intros x Hx. apply hold_In in Hx. destruct Hx as [j [Hj E]].
+        destruct (Hsv j) as [E'|[_ E']]; [left; apply hold_In; exists j; split; [exact Hj | congruence] | right; congruence]. }
+      destruct (Nat.eq_dec (w_swarm (wk g w)) sw) as [<-|Hne].
+      * pose proof (cnts_incl_cons g (w_swarm (wk g w)) _ _ w Hall) as Hle.
+        pose proof (list_max_ge_in (hi g s) (class_of g i) n Hin) as Hmax. unfold tmax. unfold hi in Hmax at 1. lia.
+      * eapply Nat.le_trans; [|exact HI]. apply cnts_incl. intros x Hx Hsx.
+        destruct (Hall x Hx) as [Hl | ->]; [exact Hl|]. unfold in_swarm in Hsx. apply Nat.eqb_eq in Hsx. contradiction.
+    + assert (E : hold s' (class_of g i) = hold s (class_of g i)).
+      { unfold hold. apply flat_map_ext_in'. intros j Hj. destruct (Hsv j) as [E | [-> _]]; [now rewrite E | contradiction]. }
+      rewrite E. exact HI.
+  - rewrite (tmax_same g s s' _ Hthr). eapply Nat.le_trans; [|exact HI]. apply cnts_incl.
+    intros x Hx _. apply hold_In in Hx. destruct Hx as [j [Hj E]]. apply hold_In. exists j. split; [exact Hj|].
+    destruct (Hsv j) as [E'|[_ E']]; congruence.
+  - rewrite (hold_same s s' _ Hsv). eapply Nat.le_trans; [exact HI|]. unfold tmax. apply list_max_le_mono.
+    intros j. now apply hi_bump.
+Qed.
+
+Lemma Inv23_mvs g w s s' : gwf g -> Inv2 g s -> Inv3 g s -> mvs g w s s' -> Inv2 g s' /\ Inv3 g s'.
+Proof.
+  intros Hg H2 H3 H. induction H as [|s s1 s2 Hm _ IH]; [now split|].
+  apply IH; [eapply Inv2_mv1; eauto | eapply Inv3_mv1; eauto; apply H2].
+Qed.
+
 (* the frame: markers of nodes the worker may not touch stay as they are *)
 Lemma mvs_frame g w s s' j : mvs g w s s' -> ~ touchable g w j -> sv s' j = sv s j.
 Proof.
@@ -762,12 +833,13 @@ Record GInv (g : graph) (s : state) : Prop := mkGInv {
   gi_len : LenOk g s;
   gi_path : forall v, PathOk g v s;
   gi_mark : forall v, RunMark g v s;
-  gi_inv2 : Inv2 g s
+  gi_inv2 : Inv2 g s;
+  gi_inv3 : Inv3 g s
 }.
 
 Lemma GInv_resume g s w out : gwf g -> GInv g s -> GInv g (fst (resume g s w out)).
 Proof.
-  intros Hg [HA Hlen HP HR HI].
+  intros Hg [HA Hlen HP HR HI HI3].
   destruct (resume_x g s w out HA Hlen (HP w) (HR w)) as [Hm [HPw HRw]].
   pose proof (resume_os g s w out HA) as Hos.
   destruct (resume_ok g s w out HA) as [_ HA'].
@@ -788,6 +860,7 @@ Proof.
     + congruence.
     + contradiction.
   - now apply (Inv2_mvs g w s).
+  - now apply (Inv23_mvs g w s _ Hg HI HI3).
 Qed.
 
 Lemma nst_init g p j : nst (init_state g p) j = mkN None None [] false (n_mct (nd g j)) [].
@@ -822,6 +895,9 @@ Proof.
     + intros i _ _. assert (E : hold (init_state g p) (class_of g i) = []).
       { unfold hold. induction (class_of g i) as [|c C IH]; [reflexivity|]. cbn. unfold sv at 1. rewrite nst_init. cbn. exact IH. }
       rewrite E. cbn. lia.
+  - intros i sw _ _. assert (E : hold (init_state g p) (class_of g i) = []).
+    { unfold hold. induction (class_of g i) as [|c C IH]; [reflexivity|]. cbn. unfold sv at 1. rewrite nst_init. cbn. exact IH. }
+    rewrite E. cbn. lia.
 Qed.
 
 Lemma GInv_schedule g sched : gwf g -> forall s, GInv g s -> GInv g (fst (run_schedule g s sched)).
@@ -854,7 +930,7 @@ Theorem mutual_exclusion g p sched i :
   length (runners s (class_of g i)) <= tmax g s (class_of g i).
 Proof.
   intros Hg Hf Hs. cbn zeta.
-  pose proof (GInv_schedule g sched Hg _ (GInv_init g p)) as [_ _ _ HR [_ HI]].
+  pose proof (GInv_schedule g sched Hg _ (GInv_init g p)) as [_ _ _ HR [_ HI] _].
   eapply Nat.le_trans; [apply (runners_le_holders g); exact HR | now apply HI].
 Qed.
 
@@ -923,6 +999,44 @@ Theorem running_holds_marker g p sched v j pre fc uid :
   ph (wst s v) = Running j pre fc uid -> started (nst s j) = Some v.
 Proof.
   intros H s Hph.
-  pose proof (GInv_schedule g sched (gwf_b_sound g H) _ (GInv_init g p)) as [_ _ _ HR _].
+  pose proof (GInv_schedule g sched (gwf_b_sound g H) _ (GInv_init g p)) as [_ _ _ HR _ _].
   specialize (HR v). unfold RunMark in HR. fold s in HR. rewrite Hph in HR. exact HR.
+Qed.
+
+(* the same for a class whose reuse scope is one swarm: the workers of each swarm are counted separately *)
+Definition runners_of (g : graph) (sw : nat) (s : state) (C : list nat) : list nat := filter (in_swarm g sw) (runners s C).
+
+Lemma runners_of_le_holders g sw s C : (forall v, RunMark g v s) -> length (runners_of g sw s C) <= cnts g sw (hold s C).
+Proof.
+  intros HR. unfold cnts, runners_of. apply NoDup_incl_length.
+  - apply NoDup_filter. unfold runners. apply NoDup_filter. apply seq_NoDup.
+  - intros w Hw. apply filter_In in Hw. destruct Hw as [Hw Hs]. apply filter_In. split; [|exact Hs].
+    unfold runners in Hw. apply filter_In in Hw. destruct Hw as [_ Hw].
+    apply dedup_In. apply hold_In. specialize (HR w). unfold RunMark in HR.
+    destruct (ph (wst s w)) as [| j pre fc uid | | |c]; try discriminate.
+    exists j. split; [now apply memn_In | exact HR].
+Qed.
+
+Theorem mutual_exclusion_swarm g p sched i sw :
+  gwf_b g = true -> n_flat (nd g i) = false -> n_scope (nd g i) = PerSwarm ->
+  let s := fst (run_schedule g (init_state g p) sched) in
+  length (runners_of g sw s (class_of g i)) <= tmax g s (class_of g i).
+Proof.
+  intros H Hf Hs. cbn zeta.
+  pose proof (GInv_schedule g sched (gwf_b_sound g H) _ (GInv_init g p)) as [_ _ _ HR _ HI].
+  eapply Nat.le_trans; [apply (runners_of_le_holders g sw); exact HR | now apply HI].
+Qed.
+
+(* ... and when every worker is a reuse scope of its own there is nothing to prove: a worker awaits one test *)
+Lemma runners_one_worker s C w : length (filter (Nat.eqb w) (runners s C)) <= 1.
+Proof.
+  unfold runners. set (l := filter _ (seq 0 (length (ws s)))).
+  assert (Hnd : NoDup l) by (apply NoDup_filter, seq_NoDup).
+  clearbody l. induction l as [|x l IH]; cbn; [lia|]. inversion Hnd as [|? ? Hx Hl]; subst.
+  destruct (Nat.eqb w x) eqn:E; [|now apply IH]. apply Nat.eqb_eq in E. subst x. cbn.
+  assert (E0 : filter (Nat.eqb w) l = []).
+  { clear -Hx. induction l as [|y l IH]; [reflexivity|]. cbn. destruct (Nat.eqb w y) eqn:E.
+    - apply Nat.eqb_eq in E. subst y. exfalso. apply Hx. now left.
+    - apply IH. intros H. apply Hx. now right. }
+  rewrite E0. cbn. lia.
 Qed.
